@@ -1252,7 +1252,7 @@ fn gen_vals(rng: &mut Rng, n: usize, out: &mut Out) -> Vec<usize> {
     if class == 9 {
         // steeply geometric histogram: counts shrink by a factor 4..12 per step of 1..3 bits
         let factor = rng.range(4, 12) as f64;
-        let steps = rng.range(2, 8) as usize;
+        let steps = rng.range(2, 14) as usize;
         let mut lens = vec![1u64];
         for _ in 1..steps { let l = lens[lens.len() - 1] + rng.range(1, 3); if l <= 64 { lens.push(l); } }
         let total: f64 = (0..lens.len()).map(|i| factor.powi(-(i as i32))).sum();
@@ -1349,7 +1349,7 @@ fn kind_dacsopt(rng: &mut Rng, out: &mut Out, id: &str, tier: &str) {
     let n = gen_n(rng, tier, 5000);
     let vals = gen_vals(rng, n, out);
     let (has_ml, ml) = match rng.below(10) {
-        0 => (false, 0usize),
+        0 | 4 | 5 => (false, 0usize),
         1 => (true, rng.pick(&[0usize, 65, 100, usize::MAX])),
         2 => (true, 1),
         3 => (true, 64),
